@@ -62,7 +62,7 @@ def generator_protocol(ctx, rep):
         for prof in ("layout", "missing"):
             for c in docs.emit(ctx, rep, config, prof, 2):
                 jobs.append((config, loaders.cps(c["text"])))
-    jobs = jobs[::3] if ctx.thorough else jobs[::25]
+    jobs = jobs[::8] if ctx.thorough else jobs[::25]      # (a trace is ~50 events; the recorded traces are held in memory)
     protocol.run_protocol(ctx, rep, jobs, "generated labels (nested blocks, collections, units, comments in gaps, missing values) x 5 configurations")
 
 
